@@ -39,7 +39,7 @@ def run(check):
         items.append((case, sem, g))
     # dedicated workloads: many equal steps finishing at the same moment, and many loop items failing at the same moment
     from ..model import Expr, In, Ref, Program, Step
-    for j in range(check.pick(30, 200)):
+    for j in range(check.pick(80, 400)):
         rng = random.Random(derive_seed(check.seed, "c17-sim", j))
         if j % 2 == 0:
             steps, outs = gen.shape_fan_in(rng, rng.choice([8, 12, 16]))
@@ -53,6 +53,8 @@ def run(check):
             scripts["sub_w0"]["exec"] = {"outcome": rng.choice(["crash", "error"])}
             g = {"program": prog, "scripts": scripts, "input": {"tag": "T", "items": [{"tag": "i%d" % k} for k in range(16)]}, "shape": "foreach-all-items-fail", "family": "loop-failing-items", "outcome": {}}
         case, sem = runfam.build_case("c17-s%04d" % j, g, no_events=True)
+        if j % 4 == 0:
+            case["runs"] = [{"input": g["input"], "parallel": True, "tag": "r%d" % q} for q in range(3)]
         items.append((case, sem, g))
     stats = {"families": {}}
     with harness.Runner(race=True) as rn:
